@@ -220,6 +220,38 @@ func layoutRecord(rng *rand.Rand, code int, codeTag string, fields []fieldSpec, 
 	}); p {
 		rec["dec"] = M{"t": "panic", "msg": msg}
 	}
+	// ... and decoded into a struct that already holds OTHER values of the same layout: what is decoded is a function of
+	// the bytes alone (a field that is only written when its bytes are non-zero keeps the old value)
+	rec["decreuse"] = M{"t": "none"}
+	if p, msg := guard(func() {
+		other := reflect.New(t).Elem()
+		walkAll(other, func(path string, f reflect.Value) {
+			if _, ok := fixed[key(path)]; ok {
+				return
+			}
+			genField(rng, f, false)
+			if f.Kind() == reflect.Bool {
+				f.SetBool(true)
+			}
+		})
+		ob, err := codec.Marshal(other.Interface())
+		if err != nil {
+			return
+		}
+		out := reflect.New(t)
+		if err := codec.Unmarshal(ob, out.Interface()); err != nil {
+			return
+		}
+		if err := codec.Unmarshal(bytes, out.Interface()); err != nil {
+			rec["decreuse"] = M{"t": "err"}
+			return
+		}
+		pv := M{}
+		walkAll(out.Elem(), func(path string, f reflect.Value) { pv[key(path)] = projLayoutField(f) })
+		rec["decreuse"] = M{"t": "ok", "v": pv}
+	}); p {
+		rec["decreuse"] = M{"t": "panic", "msg": msg}
+	}
 	// function-code and fixed-value tags are enforced on decode
 	if p, msg := guard(func() {
 		wrong := append([]byte{}, bytes...)
